@@ -1021,6 +1021,7 @@ theorem realignQ_allele (f14 : Bool) (aff : Option AffineCfg) (v : Variant) (r :
 recorded quality `distances[0][1] - distances[1][1]` (after sorting) is NEGATIVE (finding F42: the sign is reversed) -/
 theorem realignQ_affine_quality_negative (f14 : Bool) (p : AffineCfg) (v : Variant) (r : Option (List Nat)) (query : Seq)
     (cigar : Cigar) (i consumed : Nat) (qp : Int) (reference : Seq) (oh : Nat) (w : Window) (a : Nat) (ql : Int)
+    (hfs : p.fixSign = false)
     (hw : window f14 v query cigar i consumed qp reference oh = .ok w)
     (h2 : 2 ≤ (distances (affineDist p) r w).length)
     (h : realignQ f14 (some p) v r query cigar i consumed qp reference oh = .ok (some (a, ql))) : ql < 0 := by
@@ -1038,7 +1039,8 @@ theorem realignQ_affine_quality_negative (f14 : Bool) (p : AffineCfg) (v : Varia
     | [x], hl => simp at hl; omega
     | x :: y :: rest, _ =>
       by_cases hlt : x.2 < y.2
-      · simp only [hlt, if_true, qualityOf, Except.ok.injEq, Option.some.injEq, Prod.mk.injEq] at h
+      · simp only [hlt, if_true, qualityOf, hfs, Except.ok.injEq, Option.some.injEq, Prod.mk.injEq] at h
+        simp at h
         omega
       · simp [hlt] at h
 
@@ -1066,10 +1068,10 @@ example : editDistanceAffine 10 7 [('A', 15), ('C', 15)] ['A', 'C'] = 0 :=
   (editDistanceAffine_zero_iff 10 7 (by decide) _ _ (by decide)).2 rfl
 
 /-- a read carrying the deletion, `2S 3M 2D 3M` at 0, default affine costs -/
-example : realign true (affineDist ⟨10, 7, 15⟩) ⟨3, ['C', 'T'], [[]]⟩ none ['T', 'T', 'G', 'G', 'A', 'G', 'T', 'T']
+example : realign true (affineDist ⟨10, 7, 15, false⟩) ⟨3, ['C', 'T'], [[]]⟩ none ['T', 'T', 'G', 'G', 'A', 'G', 'T', 'T']
     ([(4, 2)] ++ [(0, 3)] ++ (2, 2) :: ([(0, 3)] ++ [])) ([(4, 2)] ++ [(0, 3)]).length 0
     ((qLen ([(4, 2)] ++ [(0, 3)]) + 0 : Nat) : Int) Rh 2 = .ok (some 1) :=
-  realign_affine_canonical_correct true ⟨10, 7, 15⟩ (by decide) (by decide) Rh _ 3 ['C', 'T'] [] [[]] 1 rfl
+  realign_affine_canonical_correct true ⟨10, 7, 15, false⟩ (by decide) (by decide) Rh _ 3 ['C', 'T'] [] [[]] 1 rfl
     (by intro k b hk hkh; match k, hk with
       | 0, hk => simp at hk; subst hk; decide
       | 1, _ => exact absurd rfl hkh
@@ -1280,7 +1282,7 @@ example : readModel cfg0 [src0] (some "S1") none [snv] (some Rk) = readModel cfg
 example : readModel cfg0 [src0] (some "S1") none [snv] (some Rk) = .ok [⟨"r1", 0, 60, 2, "", -1, -1, [(3, 1, 30)]⟩] := by
   decide
 
-example : realignQ true (some ⟨10, 7, 15⟩) snv none ['G', 'C', 'G', 'G', 'G'] [(0, 5)] 0 1 1 Rk 2
+example : realignQ true (some ⟨10, 7, 15, false⟩) snv none ['G', 'C', 'G', 'G', 'G'] [(0, 5)] 0 1 1 Rk 2
     = .ok (some (1, -15)) := by
   decide
 end NonVacuityFilter
